@@ -44,7 +44,7 @@ theorem seenBy_nodup_step {s : Net} {op : Op} (h : ∀ f, f ∈ s.flight → f.a
 theorem C11_seenby_nodup (n mh : Nat) (L : Node → List RAd) (ops : List Op) :
     ∀ f, f ∈ (run (init n mh L) ops).flight → f.adv.seenBy.Nodup :=
   run_induction (P := fun s => ∀ f, f ∈ s.flight → f.adv.seenBy.Nodup) _ ops
-    (by intro f hf; simp [init] at hf) (fun _ _ h => seenBy_nodup_step h)
+    (by intro f hf; simp [init, initH] at hf) (fun _ _ h => seenBy_nodup_step h)
 
 /-! ### no stored path contains the storing agent -/
 
@@ -136,10 +136,10 @@ theorem peersOf_length (s : Net) (b : Node) : (peersOf s b).length ≤ s.n := by
 
 /-- What `b` sends when it handles `m`: at most `n` frames, each strictly lighter than `m`. -/
 theorem muL_outs_lt (s : Net) (a b : Node) (m : Adv) (hb : b < s.n) :
-    muL s.n ((handle s.maxHops (peersOf s b) b a s.clock m (s.nodes b)).2.1.map
+    muL s.n ((handle (s.maxHops b) (peersOf s b) b a s.clock m (s.nodes b)).2.1.map
       (fun (pf : Node × Adv) => ({ src := b, dst := pf.1, adv := pf.2 } : Flight)))
     < (s.n + 1) ^ weight s.n m := by
-  generalize hout : (handle s.maxHops (peersOf s b) b a s.clock m (s.nodes b)).2.1 = outs
+  generalize hout : (handle (s.maxHops b) (peersOf s b) b a s.clock m (s.nodes b)).2.1 = outs
   cases outs with
   | nil => simp [muL]; exact Nat.pow_pos (by omega)
   | cons o t =>
@@ -473,8 +473,8 @@ theorem C11_once_cached (b : Node) (k : Node × Nat) (s : Net) (ops : List Op)
 
 /-- Each processing sends at most one copy to each neighbour (and none back to the sender). -/
 theorem C11_forward_once (s : Net) (a b : Node) (m : Adv) :
-    ((handle s.maxHops (peersOf s b) b a s.clock m (s.nodes b)).2.1.map Prod.fst).Nodup ∧
-    a ∉ (handle s.maxHops (peersOf s b) b a s.clock m (s.nodes b)).2.1.map Prod.fst := by
+    ((handle (s.maxHops b) (peersOf s b) b a s.clock m (s.nodes b)).2.1.map Prod.fst).Nodup ∧
+    a ∉ (handle (s.maxHops b) (peersOf s b) b a s.clock m (s.nodes b)).2.1.map Prod.fst := by
   constructor
   · unfold handle
     split
@@ -511,7 +511,7 @@ structure PathInv (s : Net) : Prop where
   entries : ∀ x e, e ∈ (s.nodes x).entries → e.path.Nodup
 
 theorem pathInv_init (n mh : Nat) (L : Node → List RAd) : PathInv (init n mh L) where
-  flight := by intro f hf; simp [init] at hf
+  flight := by intro f hf; simp [init, initH] at hf
   entries := by
     intro x e he
     rw [(initNode_entries x (L x) e he).1]
